@@ -102,9 +102,13 @@ where
     }
 }
 
+/// marker error: the iterator yielded more items than the input can possibly hold (endless iteration)
+pub const HANG: &str = "verif: iterator does not terminate";
+
 pub fn end_s(r: &Result<(), io::Error>) -> String {
     match r {
         Ok(()) => "end=ok".into(),
+        Err(e) if e.to_string() == HANG => "end=hang".into(),
         Err(e) => format!("end=err:{}", err_kind(e)),
     }
 }
@@ -117,6 +121,9 @@ pub fn read_stream(bs: &[u8]) -> String {
         let mut a = Archive::read_header(bs)?;
         for e in a.entries() {
             out.push(entry_s(&e?));
+            if out.len() > bs.len() / 12 + 2 {
+                return Err(io::Error::other(HANG));
+            }
         }
         next = a.has_next_archive();
         Ok(())
@@ -133,6 +140,9 @@ pub fn read_slice(bs: &[u8]) -> String {
         let mut a = Archive::read_header_from_slice(bs)?;
         for e in a.entries_slice() {
             out.push(entry_s(&e?));
+            if out.len() > bs.len() / 12 + 2 {
+                return Err(io::Error::other(HANG));
+            }
         }
         next = a.has_next_archive();
         Ok(())
@@ -157,6 +167,9 @@ pub fn raw_stream(bs: &[u8]) -> String {
         let mut a = Archive::read_header(bs)?;
         for e in a.raw_entries() {
             out.push(raw_item_s(e?));
+            if out.len() > bs.len() / 12 + 2 {
+                return Err(io::Error::other(HANG));
+            }
         }
         Ok(())
     })();
@@ -170,6 +183,9 @@ pub fn raw_slice(bs: &[u8]) -> String {
         let mut a = Archive::read_header_from_slice(bs)?;
         for e in a.raw_entries_slice() {
             out.push(raw_item_s(e?));
+            if out.len() > bs.len() / 12 + 2 {
+                return Err(io::Error::other(HANG));
+            }
         }
         Ok(())
     })();
@@ -186,6 +202,9 @@ pub fn chunks_stream(bs: &[u8]) -> String {
             let c = c?;
             all.extend(frame(&chunk_ty(&c), c.data()));
             n += 1;
+            if n > bs.len() / 12 + 2 {
+                return Err(io::Error::other(HANG));
+            }
         }
         Ok(())
     })();
@@ -196,6 +215,7 @@ pub fn chunks_stream(bs: &[u8]) -> String {
         crc(&all),
         match end {
             Ok(()) => "end".to_string(),
+            Err(e) if e.to_string() == HANG => "hang".to_string(),
             Err(e) => format!("err {}", err_kind(&e)),
         }
     )
@@ -209,6 +229,9 @@ pub fn chunks_slice(bs: &[u8]) -> String {
             let c = c?;
             all.extend(frame(&chunk_ty(&c), c.data()));
             n += 1;
+            if n > bs.len() / 12 + 2 {
+                return Err(io::Error::other(HANG));
+            }
         }
         Ok(())
     })();
@@ -219,6 +242,7 @@ pub fn chunks_slice(bs: &[u8]) -> String {
         crc(&all),
         match end {
             Ok(()) => "end".to_string(),
+            Err(e) if e.to_string() == HANG => "hang".to_string(),
             Err(e) => format!("err {}", err_kind(&e)),
         }
     )
@@ -233,6 +257,9 @@ pub fn read_multipart_stream(parts: &[Vec<u8>]) -> String {
         loop {
             for e in a.entries() {
                 out.push(entry_s(&e?));
+                if out.len() > 100_000 {
+                    return Err(io::Error::other(HANG));
+                }
             }
             i += 1;
             if i >= parts.len() {
@@ -253,6 +280,9 @@ pub fn read_multipart_slice(parts: &[Vec<u8>]) -> String {
         loop {
             for e in a.entries_slice() {
                 out.push(entry_s(&e?));
+                if out.len() > 100_000 {
+                    return Err(io::Error::other(HANG));
+                }
             }
             i += 1;
             if i >= parts.len() {
